@@ -143,6 +143,7 @@ class _Acc:
         self.samples = {}      # class -> sample
         self.findings = {}     # bucket -> (size, case, detail)
         self.any_samples = []
+        self._sample_keys = set()
 
     def add(self, case, out):
         self.cases += 1
@@ -153,7 +154,10 @@ class _Acc:
         for c in out.classes:
             self.classes[c] = self.classes.get(c, 0) + 1
             if c not in self.samples and len(self.samples) < 40:
-                self.samples[c] = out.sample if out.sample is not None else case
+                hk = h64(key)
+                if hk not in self._sample_keys:       # one case illustrates one class: samples stay diverse
+                    self._sample_keys.add(hk)
+                    self.samples[c] = out.sample if out.sample is not None else case
         if out.nontrivial and len(self.any_samples) < 3:
             self.any_samples.append(out.sample if out.sample is not None else case)
         for bucket, detail in out.findings:
